@@ -42,8 +42,8 @@ type Shape struct {
 	Tags           int
 	Records        string
 	Depth          int
-	// Odd counts strings that are not ordinary names (empty, unicode, control characters,
-	// random); IDs counts non-zero topic ids.
+	// Odd counts topic / group / member / config names that are not ordinary names (empty,
+	// unicode, control characters, random); IDs counts non-zero topic ids.
 	Odd int
 	IDs int
 	parts          []string
@@ -267,10 +267,14 @@ func genString(t *rapid.T, name string, env *Env, sh *Shape, path string) string
 		s = rapid.SampledFrom(pool).Draw(t, path)
 	case k <= 7:
 		s = rapid.SampledFrom(hostileStrings).Draw(t, path)
-		sh.Odd++
+		if len(pool) > 0 {
+			sh.Odd++
+		}
 	default:
 		s = rapid.StringN(0, 12, 40).Draw(t, path)
-		sh.Odd++
+		if len(pool) > 0 {
+			sh.Odd++
+		}
 	}
 	for _, r := range s {
 		if r > 127 {
@@ -349,6 +353,29 @@ func genBytes(t *rapid.T, name string, env *Env, sh *Shape, path string) []byte 
 			l := rapid.IntRange(0, 20).Draw(t, path+"#vlen")
 			return RecordBatch(n, rapid.SliceOfN(rapid.Byte(), l, l).Draw(t, path))
 		}
+	}
+	if env.Bounded && name == "Metadata" {
+		// JoinGroup protocol metadata: a well-formed consumer subscription. (The broker sizes
+		// an allocation from the 32-bit topic count in these bytes, see notes/C11.md; a served-
+		// version check must not take the shared machine down.)
+		var b []byte
+		b = binary.BigEndian.AppendUint16(b, uint16(rapid.IntRange(0, 1).Draw(t, path+"#ver")))
+		n := rapid.IntRange(0, 2).Draw(t, path+"#topics")
+		b = binary.BigEndian.AppendUint32(b, uint32(n))
+		for i := 0; i < n; i++ {
+			tp := "orders"
+			if len(env.Topics) > 0 {
+				tp = rapid.SampledFrom(env.Topics).Draw(t, path+"#topic")
+			}
+			b = binary.BigEndian.AppendUint16(b, uint16(len(tp)))
+			b = append(b, tp...)
+		}
+		if rapid.Bool().Draw(t, path+"#userdata") {
+			b = binary.BigEndian.AppendUint32(b, 0)
+		} else {
+			b = binary.BigEndian.AppendUint32(b, 0xffffffff)
+		}
+		return b
 	}
 	switch rapid.IntRange(0, 3).Draw(t, path+"?b") {
 	case 0:
